@@ -120,7 +120,12 @@ def traced_run(nodes, data, ctx, *, detail="all", mode="file", scratch=None, pip
 
     tr = TracedRun()
     tr.tdir = tempfile.mkdtemp(prefix="trace-", dir=scratch)
-    out = os.path.join(tr.tdir, "trace.ser.jsonl") if mode == "file" else os.path.join(tr.tdir, "traces")
+    if mode == "dotdir":
+        # directory output mode with an EXISTING directory whose name has a dot (traces.v2, 2026.10.05, node01.cluster)
+        out = os.path.join(tr.tdir, "traces.v2")
+        os.makedirs(out)
+    else:
+        out = os.path.join(tr.tdir, "trace.ser.jsonl") if mode == "file" else os.path.join(tr.tdir, "traces")
     drv = driver if driver is not None else JsonlTraceDriver(out, detail=detail)
     tr.driver = drv
     if pipeline is not None:
